@@ -1008,3 +1008,508 @@ func checkRealmThreading(c *Ctx, rule string) {
 		c.Unresolved(rule, "success returns of state-threading DevLoader methods (fewer than 3)")
 	}
 }
+
+// R01m: inspected key parts are numbered by the engine's ordinal.
+const ruleTextPartOrdinal = "query/consumer agreement in the SQLite inspector: every schema.IndexPart built while scanning a cursor takes its SeqNo from the engine's part ordinal — either the value scanned from the bare ordinal column of the query (`pk` of pragma_table_[x]info, `seqno` of pragma_index_[x]info) with the parts sorted by SeqNo afterwards, or arrival order under a query whose ORDER BY starts with that ordinal column; otherwise a key declared in another order than the engine's row order is inspected differently from how it was written and never converges"
+
+func checkPartOrdinal(c *Ctx, rule string) {
+	n := 0
+	// queries feeding a function: its own QueryContext, or the one of the package-local caller that hands it the cursor
+	queryOf := func(fi *FuncInfo) (string, bool) {
+		var find func(fi *FuncInfo, depth int) (string, bool)
+		find = func(fi *FuncInfo, depth int) (string, bool) {
+			info := fi.Info()
+			var q string
+			ast.Inspect(fi.Decl.Body, func(m ast.Node) bool {
+				call, ok := m.(*ast.CallExpr)
+				if !ok || q != "" {
+					return q == ""
+				}
+				se, ok := call.Fun.(*ast.SelectorExpr)
+				if !ok || (se.Sel.Name != "QueryContext" && se.Sel.Name != "Query") {
+					return true
+				}
+				for _, a := range call.Args {
+					if s, ok := stringConst(info, a); ok {
+						q = s
+						return false
+					}
+					if inner, ok := ast.Unparen(a).(*ast.CallExpr); ok && funcIs(calleeOf(info, inner), "fmt", "", "Sprintf") && len(inner.Args) > 0 {
+						if s, ok := stringConst(info, inner.Args[0]); ok {
+							q = s
+							return false
+						}
+					}
+				}
+				return true
+			})
+			return q, q != ""
+		}
+		if q, ok := find(fi, 0); ok {
+			return q, true
+		}
+		var out string
+		c.AllFuncs(false, func(g *FuncInfo) {
+			if g.Pkg.PkgPath != fi.Pkg.PkgPath || out != "" {
+				return
+			}
+			for _, call := range callsIn(g.Decl.Body, true) {
+				if calleeOf(g.Info(), call) == fi.Obj {
+					if q, ok := find(g, 0); ok {
+						out = q
+					}
+				}
+			}
+		})
+		return out, out != ""
+	}
+	unquote := func(s string) string { return strings.ToLower(strings.Trim(strings.TrimSpace(s), "`\"[]")) }
+	selectList := func(q string) []string {
+		lq := strings.ToLower(q)
+		i, j := strings.Index(lq, "select"), strings.Index(lq, " from ")
+		if i < 0 || j < i {
+			return nil
+		}
+		var out []string
+		depth, start := 0, i+len("select")
+		for k := start; k < j; k++ {
+			switch q[k] {
+			case '(':
+				depth++
+			case ')':
+				depth--
+			case ',':
+				if depth == 0 {
+					out = append(out, q[start:k])
+					start = k + 1
+				}
+			}
+		}
+		return append(out, q[start:j])
+	}
+	orderFirst := func(q string) string {
+		lq := strings.ToLower(q)
+		i := strings.LastIndex(lq, "order by")
+		if i < 0 {
+			return ""
+		}
+		rest := strings.TrimSpace(q[i+len("order by"):])
+		if k := strings.IndexAny(rest, ", "); k >= 0 {
+			rest = rest[:k]
+		}
+		return unquote(rest)
+	}
+	ordinalOf := func(q string) string {
+		lq := strings.ToLower(q)
+		switch {
+		case strings.Contains(lq, "pragma_table_xinfo") || strings.Contains(lq, "pragma_table_info"):
+			return "pk"
+		case strings.Contains(lq, "pragma_index_xinfo") || strings.Contains(lq, "pragma_index_info"):
+			return "seqno"
+		}
+		return ""
+	}
+	c.AllFuncs(false, func(fi *FuncInfo) {
+		if fi.Pkg.PkgPath != pSqlite {
+			return
+		}
+		info := fi.Info()
+		// scanned variables and their position in the Scan call
+		scanPos := map[types.Object]int{}
+		ast.Inspect(fi.Decl.Body, func(m ast.Node) bool {
+			call, ok := m.(*ast.CallExpr)
+			if !ok {
+				return true
+			}
+			if se, ok := call.Fun.(*ast.SelectorExpr); ok && se.Sel.Name == "Scan" && typeIs(derefType(info.TypeOf(se.X)), "database/sql", "Rows") {
+				for ai, a := range call.Args {
+					if un, ok := ast.Unparen(a).(*ast.UnaryExpr); ok && un.Op == token.AND {
+						if id := rootIdent(un.X); id != nil && info.ObjectOf(id) != nil {
+							scanPos[info.ObjectOf(id)] = ai
+						}
+					}
+				}
+			}
+			return true
+		})
+		if len(scanPos) == 0 {
+			return
+		}
+		ast.Inspect(fi.Decl.Body, func(m ast.Node) bool {
+			cl, ok := m.(*ast.CompositeLit)
+			if !ok || !typeIs(info.TypeOf(cl), pSchema, "IndexPart") {
+				return true
+			}
+			var seq ast.Expr
+			for _, el := range cl.Elts {
+				if kv, ok := el.(*ast.KeyValueExpr); ok {
+					if k, ok := kv.Key.(*ast.Ident); ok && k.Name == "SeqNo" {
+						seq = kv.Value
+					}
+				}
+			}
+			if seq == nil {
+				return true
+			}
+			n++
+			c.funcs[fi.Name] = true
+			key := fi.Name + "|SeqNo of inspected part from the engine's ordinal"
+			q, ok := queryOf(fi)
+			if !ok {
+				c.Unresolved(rule, fi.Name+": query feeding the cursor")
+				return true
+			}
+			ord := ordinalOf(q)
+			if ord == "" {
+				c.Unresolved(rule, fi.Name+": ordinal column of the pragma in "+q)
+				return true
+			}
+			// scanned?
+			var scanned types.Object
+			ast.Inspect(seq, func(m ast.Node) bool {
+				if id, ok := m.(*ast.Ident); ok {
+					if _, ok := scanPos[info.ObjectOf(id)]; ok {
+						scanned = info.ObjectOf(id)
+					}
+				}
+				return true
+			})
+			if scanned == nil {
+				first := orderFirst(q)
+				c.Check(rule, key, cl.Pos(), first == ord, "%s numbers the parts in arrival order (%s) but the query is ordered by %q, not by the part ordinal %q: a key whose parts are declared in another order is inspected in the wrong order, so the diff with the desired schema is never empty", fi.Name, types.ExprString(seq), first, ord)
+				return true
+			}
+			cols := selectList(q)
+			pos := scanPos[scanned]
+			col := ""
+			if pos < len(cols) {
+				col = unquote(cols[pos])
+			}
+			// sorted by SeqNo afterwards: in this function or in a package-local caller
+			sorted := false
+			hasSort := func(g *FuncInfo) bool {
+				hit := false
+				for _, call := range callsIn(g.Decl.Body, true) {
+					fn := calleeOf(g.Info(), call)
+					if fn == nil || fn.Pkg() == nil || (fn.Pkg().Path() != "sort" && fn.Pkg().Path() != "slices") || !strings.Contains(fn.Name(), "Sort") && !strings.Contains(fn.Name(), "Slice") {
+						continue
+					}
+					for _, a := range call.Args {
+						if fl, ok := a.(*ast.FuncLit); ok {
+							ast.Inspect(fl.Body, func(m ast.Node) bool {
+								if se, ok := m.(*ast.SelectorExpr); ok && se.Sel.Name == "SeqNo" {
+									hit = true
+								}
+								return true
+							})
+						}
+					}
+				}
+				return hit
+			}
+			if hasSort(fi) {
+				sorted = true
+			} else {
+				c.AllFuncs(false, func(g *FuncInfo) {
+					if g.Pkg.PkgPath != fi.Pkg.PkgPath || sorted {
+						return
+					}
+					for _, call := range callsIn(g.Decl.Body, true) {
+						if calleeOf(g.Info(), call) == fi.Obj && hasSort(g) {
+							sorted = true
+						}
+					}
+				})
+			}
+			c.Check(rule, key, cl.Pos(), col == ord && (sorted || orderFirst(q) == ord), "%s takes SeqNo from the scanned value %s, which is column %q of the query (the part ordinal is the bare column %q), parts sorted by SeqNo afterwards=%v: the inspected order of the key parts is not the engine's, so a key declared in another order never converges", fi.Name, scanned.Name(), col, ord, sorted)
+			return true
+		})
+	})
+	if n < 2 {
+		c.Unresolved(rule, "schema.IndexPart literals built while scanning a cursor in sql/sqlite (fewer than 2)")
+	}
+}
+
+// R20h: the planners treat the changes they are given as read-only.
+const ruleTextPlannerInputRO = "the planners treat the changes they are given as read-only: in the planner files (migrate*.go, plan.go) of the drivers and sqlx, no statement stores into a field of a schema object (a struct of sql/schema reached through a pointer) that is a parameter or was obtained from one by ranging, indexing, type-switching or field selection; normalised variants are built as new values. `schema apply` plans the same change list twice (display, then execution), so a store would make the second plan differ from the first"
+
+// plannerInputStoreExceptions: one named store each, with the reason it does
+// not make a second plan differ.
+var plannerInputStoreExceptions = map[string]string{
+	"mysql.(state).column|t.Attrs":     "idempotent normalisation: the column's AUTO_INCREMENT value is copied to the table attributes only when the table has none (`!sqlx.Has(t.Attrs, &AutoIncrement{})`), before the table options of the same statement are rendered; the second plan finds the attribute, skips the store and renders the same text",
+	"sqlite.normalizeIdxName|idx.Name": "idempotent normalisation: an engine-generated `sqlite_autoindex…` name is replaced, before the statement is rendered, by <table>_<columns>; the second plan sees the replaced name, skips the store and renders the same text",
+}
+
+func checkPlannerInputReadOnly(c *Ctx, rule string) {
+	n := 0
+	for _, pp := range []string{pSqlx, pMysql, pPostgres, pSqlite} {
+		c.AllFuncs(false, func(fi *FuncInfo) {
+			if fi.Pkg.PkgPath != pp {
+				return
+			}
+			base := c.Fset.Position(fi.Decl.Pos()).Filename
+			base = base[strings.LastIndex(base, "/")+1:]
+			if !(strings.HasPrefix(base, "migrate") || base == "plan.go") {
+				return
+			}
+			info := fi.Info()
+			inSchema := func(t types.Type) bool {
+				if t == nil {
+					return false
+				}
+				switch u := t.(type) {
+				case *types.Pointer:
+					t = u.Elem()
+				}
+				if sl, ok := t.Underlying().(*types.Slice); ok {
+					t = sl.Elem()
+					if p, ok := t.(*types.Pointer); ok {
+						t = p.Elem()
+					}
+				}
+				nt := namedOf(t)
+				return nt != nil && nt.Obj().Pkg() != nil && nt.Obj().Pkg().Path() == pSchema
+			}
+			derived := map[types.Object]bool{}
+			for _, fld := range fi.Decl.Type.Params.List {
+				for _, nm := range fld.Names {
+					if o := info.ObjectOf(nm); o != nil && inSchema(o.Type()) {
+						derived[o] = true
+					}
+				}
+			}
+			if len(derived) == 0 {
+				return
+			}
+			// alias-producing expressions rooted at a derived object (no calls: results of helpers are treated as fresh)
+			var isDerived func(e ast.Expr) bool
+			isDerived = func(e ast.Expr) bool {
+				switch x := ast.Unparen(e).(type) {
+				case *ast.Ident:
+					return derived[info.ObjectOf(x)]
+				case *ast.SelectorExpr:
+					if _, isField := info.Selections[x]; isField {
+						return isDerived(x.X)
+					}
+				case *ast.IndexExpr:
+					return isDerived(x.X)
+				case *ast.SliceExpr:
+					return isDerived(x.X)
+				case *ast.StarExpr:
+					return isDerived(x.X)
+				case *ast.TypeAssertExpr:
+					return isDerived(x.X)
+				case *ast.CallExpr:
+					// a module-local helper handed input objects and returning schema objects
+					// (a filtered list, a looked-up element) returns the same objects
+					fn := calleeOf(info, x)
+					if fn == nil || fn.Pkg() == nil || !strings.HasPrefix(fn.Pkg().Path(), modRoot) || !inSchema(info.TypeOf(x)) {
+						return false
+					}
+					for _, a := range x.Args {
+						if isDerived(a) {
+							return true
+						}
+					}
+				}
+				return false
+			}
+			aliasType := func(t types.Type) bool {
+				if t == nil {
+					return false
+				}
+				switch t.Underlying().(type) {
+				case *types.Pointer, *types.Slice, *types.Interface, *types.Map:
+					return true
+				}
+				return false
+			}
+			for changed := true; changed; {
+				changed = false
+				mark := func(id *ast.Ident) {
+					if id == nil || id.Name == "_" {
+						return
+					}
+					if o := info.ObjectOf(id); o != nil && !derived[o] && aliasType(o.Type()) {
+						derived[o] = true
+						changed = true
+					}
+				}
+				ast.Inspect(fi.Decl.Body, func(m ast.Node) bool {
+					switch x := m.(type) {
+					case *ast.RangeStmt:
+						if isDerived(x.X) {
+							if id, ok := x.Value.(*ast.Ident); ok {
+								mark(id)
+							}
+						}
+					case *ast.AssignStmt:
+						if len(x.Lhs) == len(x.Rhs) {
+							for i, l := range x.Lhs {
+								if id, ok := l.(*ast.Ident); ok && isDerived(x.Rhs[i]) {
+									mark(id)
+								}
+							}
+						} else if len(x.Rhs) == 1 && len(x.Lhs) == 2 { // v, ok := x.(T)
+							if ta, ok := ast.Unparen(x.Rhs[0]).(*ast.TypeAssertExpr); ok && isDerived(ta.X) {
+								if id, ok := x.Lhs[0].(*ast.Ident); ok {
+									mark(id)
+								}
+							}
+						}
+					case *ast.TypeSwitchStmt:
+						var subj ast.Expr
+						var bind *ast.Ident
+						switch a := x.Assign.(type) {
+						case *ast.AssignStmt:
+							if ta, ok := a.Rhs[0].(*ast.TypeAssertExpr); ok {
+								subj = ta.X
+							}
+							bind, _ = a.Lhs[0].(*ast.Ident)
+						case *ast.ExprStmt:
+							if ta, ok := a.X.(*ast.TypeAssertExpr); ok {
+								subj = ta.X
+							}
+						}
+						if subj != nil && bind != nil && isDerived(subj) {
+							for _, cc := range x.Body.List {
+								if o := info.Implicits[cc]; o != nil && !derived[o] && aliasType(o.Type()) {
+									derived[o] = true
+									changed = true
+								}
+							}
+						}
+					}
+					return true
+				})
+			}
+			n++
+			c.funcs[fi.Name] = true
+			bad := ""
+			pos := fi.Decl.Pos()
+			var exceptions []string
+			store := func(l ast.Expr, at token.Pos) {
+				l = ast.Unparen(l)
+				var base ast.Expr
+				switch x := l.(type) {
+				case *ast.SelectorExpr:
+					if _, isField := info.Selections[x]; !isField {
+						return
+					}
+					base = x.X
+				case *ast.IndexExpr:
+					base = x.X
+				case *ast.StarExpr:
+					base = x.X
+				default:
+					return
+				}
+				if !isDerived(base) {
+					return
+				}
+				// the struct written lives in sql/schema
+				bt := info.TypeOf(base)
+				if !inSchema(bt) {
+					return
+				}
+				if _, listed := plannerInputStoreExceptions[fi.Name+"|"+types.ExprString(l)]; listed {
+					exceptions = append(exceptions, types.ExprString(l))
+					return
+				}
+				if bad == "" {
+					bad, pos = types.ExprString(l), at
+				}
+			}
+			ast.Inspect(fi.Decl.Body, func(m ast.Node) bool {
+				switch x := m.(type) {
+				case *ast.AssignStmt:
+					if x.Tok == token.DEFINE {
+						return true
+					}
+					for _, l := range x.Lhs {
+						store(l, x.Pos())
+					}
+				case *ast.IncDecStmt:
+					store(x.X, x.Pos())
+				}
+				return true
+			})
+			for _, e := range exceptions {
+				c.Check(rule, fi.Name+"|listed exception "+e, pos, true, "%s", plannerInputStoreExceptions[fi.Name+"|"+e])
+			}
+			c.Check(rule, fi.Name+"|input changes not written", pos, bad == "", "%s stores into %s, an object of the change list it was given: the caller's changes are modified by planning, so planning the same list again (`schema apply` plans for display and again for execution) yields a different plan", fi.Name, bad)
+		})
+	}
+	if n < 10 {
+		c.Unresolved(rule, "planner functions taking schema objects (found fewer than 10)")
+	}
+}
+
+// R20i: slice helpers of sql/schema that return a new slice do not reuse the argument's backing array.
+func checkSchemaSliceHelpers(c *Ctx, rule string) {
+	n := 0
+	c.AllFuncs(false, func(fi *FuncInfo) {
+		if fi.Pkg.PkgPath != pSchema || fi.Decl.Type.Results == nil {
+			return
+		}
+		info := fi.Info()
+		sig := fi.Obj.Type().(*types.Signature)
+		retSlice := false
+		for i := 0; i < sig.Results().Len(); i++ {
+			if _, ok := sig.Results().At(i).Type().Underlying().(*types.Slice); ok {
+				retSlice = true
+			}
+		}
+		if !retSlice {
+			return
+		}
+		params := map[types.Object]bool{}
+		for _, fld := range fi.Decl.Type.Params.List {
+			for _, nm := range fld.Names {
+				if _, ok := info.TypeOf(fld.Type).Underlying().(*types.Slice); ok {
+					params[info.ObjectOf(nm)] = true
+				}
+			}
+		}
+		if len(params) == 0 {
+			return
+		}
+		n++
+		c.funcs[fi.Name] = true
+		bad := ""
+		pos := fi.Decl.Pos()
+		isParam := func(e ast.Expr) bool {
+			id, ok := ast.Unparen(e).(*ast.Ident)
+			return ok && params[info.ObjectOf(id)]
+		}
+		ast.Inspect(fi.Decl.Body, func(m ast.Node) bool {
+			switch x := m.(type) {
+			case *ast.SliceExpr:
+				if x.High != nil && x.Low == nil && isParam(x.X) {
+					if tv := info.Types[x.High]; tv.Value != nil && tv.Value.String() == "0" {
+						bad, pos = types.ExprString(x), x.Pos()
+					}
+				}
+			case *ast.CallExpr:
+				if builtinName(info, x) == "append" && len(x.Args) > 0 {
+					if sl, ok := ast.Unparen(x.Args[0]).(*ast.SliceExpr); ok && isParam(sl.X) && !capLimited(sl) {
+						bad, pos = types.ExprString(x), x.Pos()
+					}
+				}
+				if fn := calleeOf(info, x); fn != nil && fn.Pkg() != nil && fn.Pkg().Path() == "slices" && (fn.Name() == "DeleteFunc" || fn.Name() == "Delete" || fn.Name() == "Compact" || fn.Name() == "CompactFunc") && len(x.Args) > 0 && isParam(x.Args[0]) {
+					bad, pos = types.ExprString(x), x.Pos()
+				}
+			}
+			return true
+		})
+		c.Check(rule, fi.Name+"|result not built in the argument's backing array", pos, bad == "", "%s builds the slice it returns in the backing array of its argument (%s): a caller that does not assign the result back — a read-only diff — has its schema's attributes overwritten, so marshalling or planning the same schema afterwards gives different output", fi.Name, bad)
+	})
+	if n < 2 {
+		c.Unresolved(rule, "sql/schema functions taking and returning a slice (fewer than 2)")
+	}
+}
+
+// capLimited: s[lo:hi:hi] — an append to it cannot write into s's backing array beyond hi, it reallocates.
+func capLimited(sl *ast.SliceExpr) bool {
+	return sl.Slice3 && sl.Max != nil && sl.High != nil && types.ExprString(sl.Max) == types.ExprString(sl.High)
+}
